@@ -86,7 +86,7 @@ def run_parser(parser, header, rows, wd, tag, skip_failed, fail_calls=(), exc='V
         reference_source=None, quiet=True, skip_failed=skip_failed, **spec['extra'])
     cls, meth = spec['record_cls'], spec['method']
     orig = getattr(cls, meth)
-    state = {'n': 0, 'fired': []}
+    state = {'n': 0, 'fired': [], 'natural': []}
     fail = set(fail_calls)
 
     def wrapped(self, *a, **k):
@@ -95,7 +95,11 @@ def run_parser(parser, header, rows, wd, tag, skip_failed, fail_calls=(), exc='V
         if i in fail:
             state['fired'].append(i)
             raise EXC[exc]('injected row failure')
-        return orig(self, *a, **k)
+        try:
+            return orig(self, *a, **k)
+        except Exception as e:  # pylint: disable=broad-except
+            state['natural'].append((i, type(e).__name__))
+            raise
     tallies = []
     orig_tally = mod.TallyTable
 
@@ -119,6 +123,7 @@ def run_parser(parser, header, rows, wd, tag, skip_failed, fail_calls=(), exc='V
         mod.TallyTable = orig_tally
     res['calls'] = state['n']
     res['fired'] = state['fired']
+    res['natural'] = state['natural']
     res['gvf_exists'] = out.exists()
     res['records'] = [l for l in out.read_text().splitlines() if not l.startswith('#')] \
         if out.exists() else None
@@ -178,6 +183,68 @@ def judge(parser, header, rows, wd, fail_rows, exc):
     return out, {'fired': len(a['fired']), 'n_rows': len(rows), 'reach': sum(reach)}
 
 
+# rows that fail by themselves inside the conversion (malformed or impossible coordinates): column, new value
+NATURAL = {
+    'parseVEP': [(1, 'chr22:1179-'), (1, 'HLA-DRB1*15:01:01:01:1179'), (1, 'chr22:99999999'),
+                 (1, 'chr22:0'), (3, 'ENSG00000999999.1'), (4, 'ENST00000999999.1')],
+    'parseSTARFusion': [(7, 'chr22:99999999:+'), (9, 'chr22:99999999:+'), (7, 'chr22:0:+')],
+    'parseArriba': [(4, 'chr22:99999999'), (5, 'chr22:99999999'), (4, 'chr22:0')],
+    'parseFusionCatcher': [(8, '22:99999999:+'), (9, '22:99999999:-'), (8, '22:0:+')],
+}
+
+
+def mutate_row(rng, parser, row):
+    col, val = rng.choice(NATURAL[parser])
+    f = row.split('\t')
+    if col >= len(f):
+        return row
+    f[col] = val
+    return '\t'.join(f)
+
+
+def judge_natural(parser, header, rows, wd):
+    """Rows that fail by themselves: classified by running each row alone WITHOUT the flag with a recorder around
+    the conversion method.  'convert-raises' rows are the failing units; rows that abort elsewhere (while the
+    file is being read) are outside what --skip-failed covers and are dropped from the case."""
+    kinds = []
+    for r in rows:
+        one = run_parser(parser, header, [r], wd, 'one', False)
+        if one['ok']:
+            kinds.append('ok')
+        elif one['natural']:
+            kinds.append('convert-raises')
+        else:
+            kinds.append('other-abort')
+    rows = [r for r, k in zip(rows, kinds) if k != 'other-abort']
+    kinds = [k for k in kinds if k != 'other-abort']
+    bad = [i for i, k in enumerate(kinds) if k == 'convert-raises']
+    if not bad or len(bad) == len(rows):
+        return None, {'invalid': 'no naturally failing row' if not bad else 'only failing rows'}
+    a = run_parser(parser, header, rows, wd, 'a', True)
+    b = run_parser(parser, header, [r for i, r in enumerate(rows) if i not in bad], wd, 'b', True)
+    a2 = run_parser(parser, header, rows, wd, 'a2', False)
+    out = []
+    if not a['ok']:
+        out.append(('parser-completes', f"parser-completes:{parser}:natural:{a['exc'][0]}",
+                    {'exc': a['exc'], 'failing_rows': [rows[i] for i in bad][:3]}))
+    elif not b['ok']:
+        return None, {'invalid': ('model failed', b['exc'])}
+    else:
+        if a['records'] != b['records']:
+            out.append(('parser-isolation', f'parser-isolation:{parser}:natural',
+                        {'faulted': a['records'], 'rows_removed': b['records'], 'failing_rows': bad}))
+        if a.get('tally') and b.get('tally'):
+            if a['tally']['failed'] != b['tally']['failed'] + len(bad) or a['tally']['succeed'] != b['tally']['succeed'] \
+                    or a['tally']['total'] != len(rows):
+                out.append(('parser-tally', f'parser-tally:{parser}:natural',
+                            {'tally': a['tally'], 'model_tally': b['tally'], 'n_failed_rows': len(bad)}))
+    if a2['ok'] or a2['gvf_exists']:
+        out.append(('parser-abort', f"parser-abort:{parser}:natural:{'completed' if a2['ok'] else 'gvf-left'}",
+                    {'completed': a2['ok'], 'gvf_exists': a2['gvf_exists']}))
+    return out, {'fired': len(bad), 'n_rows': len(rows), 'reach': len(rows),
+                 'natural_exc': sorted({x[1] for x in a2['natural']})}
+
+
 def gen(seed, idx):
     rng = R.case_rng(seed, ENGINE, idx)
     parser = rng.choice(sorted(PARSERS))
@@ -187,6 +254,10 @@ def gen(seed, idx):
     k = rng.randint(1, max(1, n - 1))
     fail_rows = sorted(rng.sample(range(n), k))
     exc = rng.choice(sorted(EXC))
+    if rng.random() < 0.4:
+        # natural mode: some rows are made to fail by themselves instead of by injection
+        rows = [mutate_row(rng, parser, r) if i in fail_rows else r for i, r in enumerate(rows)]
+        exc = 'natural'
     return parser, header, rows, fail_rows, exc
 
 
@@ -196,7 +267,10 @@ def run_case(seed, task, tier, prop):
     out = {'executions': 0, 'signatures': [], 'violations': [], 'probes': {'parser_rows_case': 1},
            'faults': {}}
     with cvcase.Scratch('c07p_') as wd:
-        res, info = judge(parser, header, rows, wd, fail_rows, exc)
+        if exc == 'natural':
+            res, info = judge_natural(parser, header, rows, wd)
+        else:
+            res, info = judge(parser, header, rows, wd, fail_rows, exc)
         out['executions'] += 4 + len(rows)
         if res is None:
             out['invalid'] = True
@@ -217,7 +291,10 @@ def run_case(seed, task, tier, prop):
 
 def replay(rep):
     with cvcase.Scratch('c07pr_') as wd:
-        res, _ = judge(rep['parser'], rep['header'], rep['rows'], wd, rep['fail_rows'], rep['exc'])
+        if rep['exc'] == 'natural':
+            res, _ = judge_natural(rep['parser'], rep['header'], rep['rows'], wd)
+        else:
+            res, _ = judge(rep['parser'], rep['header'], rep['rows'], wd, rep['fail_rows'], rep['exc'])
     if res is None:
         return []
     return [dict(rep, clause=c, signature=s, detail=d) for c, s, d in res]
@@ -225,6 +302,11 @@ def replay(rep):
 
 def shrink_candidates(rep):
     rows, fail = rep['rows'], rep['fail_rows']
+    if rep['exc'] == 'natural':
+        for i in range(len(rows) - 1, -1, -1):
+            if len(rows) > 2:
+                yield dict(rep, rows=rows[:i] + rows[i + 1:], fail_rows=[])
+        return
     for i in range(len(rows) - 1, -1, -1):
         if i in fail and len(fail) == 1:
             continue
